@@ -3,7 +3,7 @@
 # runs checks of a scratch copy of /verif (/tmp/mt/verif) against the scratch repo /tmp/mt/repo with the patch applied
 NAME=$1; P=$2; shift 2
 rsync -a --delete --exclude work --exclude replays --exclude evidence --exclude .git /verif/ /tmp/mt/verif/ 
-cd /tmp/mt/repo && git reset -q --hard && git clean -qfd -e target && git apply $P || { echo "MT $NAME apply-failed"; exit 1; }
+cd /tmp/mt/repo && git reset -q --hard && git checkout -q --detach main && git clean -qfd -e target && git apply $P || { echo "MT $NAME apply-failed"; exit 1; }
 cd /tmp/mt/verif
 for id in "$@"; do
   ./check $id > /tmp/mt/run_${NAME}_$id.log 2>&1; rc=$?
